@@ -318,6 +318,122 @@ def rule_refuse(ctx, cd):
     # the C <T>_SERIALIZATION_BUFFER_SIZE_BYTES_ >= bit_length_set.max/8 relation is numerical (pydsdl: inner extent >= max bit length): declined
 
 
+def _is_min_term(e: str, pol: bool, val: str, ty: str) -> bool:
+    """does the branch condition (e, pol) say that `val` is the most negative 64-bit integer?"""
+    import ast
+    try:
+        n = ast.parse(e, mode="eval").body
+    except SyntaxError:
+        return False
+    if not (isinstance(n, ast.Compare) and len(n.ops) == 1):
+        return False
+    sides = {ast.unparse(n.left).replace(" ", ""), ast.unparse(n.comparators[0]).replace(" ", "")}
+    mins = {"-2**63", "-(2**63)", "-9223372036854775808", f"{ty}.inclusive_value_range.min"}
+    if val not in sides or not (sides - {val}) & mins:
+        return False
+    op = n.ops[0]
+    if isinstance(op, ast.Eq):
+        return pol
+    if isinstance(op, ast.NotEq):
+        return not pol
+    left_is_val = ast.unparse(n.left).replace(" ", "") == val
+    if isinstance(op, ast.LtE):
+        return pol if left_is_val else False          # val <= min
+    if isinstance(op, ast.GtE):
+        return pol if not left_is_val else False      # min >= val
+    if isinstance(op, ast.Gt):
+        return (not pol) if left_is_val else False    # not (val > min)
+    if isinstance(op, ast.Lt):
+        return (not pol) if not left_is_val else False
+    return False
+
+
+def rule_literal(ctx, px):
+    R = "R-C05-LITERAL"
+    ctx.rule(
+        R,
+        "the literal a DSDL constant is rendered as keeps its value and type in C and C++: booleans by truth value; integers as the "
+        "decimal value with U exactly for unsigned types and one L above 16 and a second above 32 bits; the most negative 64-bit value "
+        "(whose magnitude fits no signed literal) as (min + 1) - 1; floats as the exact numerator / denominator of the rational, cast "
+        "to the storage type; any other type fails; the C++ filters and both constant_value filters delegate to this one with the "
+        "constant's own native value and data type",
+    )
+    import ast
+
+    from nvsa import pyfront, symstr
+    cm = px.module("nunavut.lang.c")
+    f = cm.funcs.get("filter_literal")
+    if f is None:
+        raise AnalysisError("anchor missing: nunavut.lang.c.filter_literal")
+    params = [a.arg for a in f.node.args.args]
+    val, ty = params[1], params[2]
+    rets = []
+    for path in pyfront.enumerate_paths(f.node.body):
+        if path.outcome != "return":
+            continue
+        r = path.stmts[-1]
+        terms = pyfront.guard_terms([(pyfront.subst_locals(f.node, t_) if not isinstance(t_, str) else t_, p_) for t_, p_ in path.conds])
+        if any((e == "False" and pol) or (e == "True" and not pol) for e, pol in terms):
+            continue      # a branch that is switched off
+        kind = next((k for k in ("BooleanType", "IntegerType", "FloatType") if any(e == f"isinstance({ty}, pydsdl.{k})" and pol for e, pol in terms)), None)
+        # assignments on the path (the last one wins) resolve locals that are assigned on several branches
+        env = {}
+        for st in path.stmts:
+            if isinstance(st, ast.Assign) and len(st.targets) == 1 and isinstance(st.targets[0], ast.Name):
+                env[st.targets[0].id] = st.value
+        alts = symstr.sym(px, f, r.value, _bound={k: v for k, v in env.items() if k not in params})
+        rets.append((kind, terms, [symstr.render(p_) for _c, p_ in alts], [c for c, _p in alts], r))
+    kinds = {k for k, *_ in rets}
+    ok = {"BooleanType", "IntegerType", "FloatType"} <= kinds
+    ctx.ob(R, cm.rel, f"{f.short} :: boolean, integer and float types are rendered", ok, f"{sorted(k for k in kinds if k)}", f.node.lineno)
+    closed = isinstance(f.node.body[-1], ast.If) and any(isinstance(x, ast.Raise) for x in ast.walk(f.node.body[-1])) or isinstance(f.node.body[-1], ast.Raise)
+    ctx.ob(R, cm.rel, f"{f.short} :: any other type fails generation", closed, "", f.node.lineno)
+    SUFFIX = f"{{'U' * isinstance({ty}, pydsdl.UnsignedIntegerType)}}{{'L' * ({ty}.bit_length > 16)}}{{'L' * ({ty}.bit_length > 32)}}"
+    n_min = 0
+    for kind, terms, shown, conds, r in rets:
+        if kind == "BooleanType":
+            ok = sorted(shown) == sorted(["{language.valuetoken_true}", "{language.valuetoken_false}"]) or \
+                shown == [f"{{language.valuetoken_true if {val} else language.valuetoken_false}}"]
+            ctx.ob(R, cm.rel, f"{f.short} [bool] :: true / false token by truth value", ok, f"{shown}", r.lineno)
+        elif kind == "IntegerType":
+            is_min = any(_is_min_term(e, pol, val, ty) for e, pol in terms)
+            if is_min:
+                n_min += 1
+                ok = shown == [f"({{{val} + 1}}{SUFFIX} - 1{SUFFIX})"]
+                ctx.ob(R, cm.rel, f"{f.short} [int, most negative 64-bit value] :: spelled (value + 1) - 1 with the type's suffix on both literals", ok, f"{shown}", r.lineno)
+            else:
+                ok = shown == [f"{{{val}}}{SUFFIX}"]
+                ctx.ob(R, cm.rel, f"{f.short} [int] :: decimal value, U exactly for unsigned, L above 16 bits, LL above 32 bits", ok,
+                       "" if ok else f"rendered as {shown}: the literal's type is narrower than the constant or signedness is lost", r.lineno)
+        elif kind == "FloatType":
+            src = " ".join(shown)
+            whole = any(pol and e.replace(" ", "") == f"{val}.denominator==1" for e, pol in terms)
+            uses = f"{val}.numerator" in src and (whole or f"{val}.denominator" in src)
+            cast = "filter_type_from_primitive(language, " + ty + ")" in src or "cast_format.format(" in src
+            ctx.ob(R, cm.rel, f"{f.short} [float{', integral' if whole else ''}] :: exact numerator{'' if whole else ' / denominator'} of the rational, cast to the storage type", uses and cast,
+                   f"{shown}", r.lineno)
+    ctx.ob(R, cm.rel, f"{f.short} [int] :: -2**63 has its own spelling (its magnitude fits no signed literal: the compiler would make it unsigned and positive)", n_min >= 1,
+           "" if n_min else "`-9223372036854775808LL` is read as the negation of an unsigned literal: the constant is positive and every use is diagnosed", f.node.lineno)
+    # delegation
+    for modname, fname, want in (("nunavut.lang.c", "filter_constant_value", "filter_literal"), ("nunavut.lang.cpp", "filter_constant_value", "c_filter_literal"),
+                                 ("nunavut.lang.cpp", "filter_literal", "c_filter_literal")):
+        m = px.module(modname)
+        g = m.funcs.get(fname)
+        if g is None:
+            raise AnalysisError(f"anchor missing: {fname} in {modname}")
+        gp = [a.arg for a in g.node.args.args]
+        rets_g = [r.value for r in ast.walk(g.node) if isinstance(r, ast.Return) and r.value is not None]
+        ok = len(rets_g) == 1 and isinstance(rets_g[0], ast.Call) and ast.unparse(rets_g[0].func) == want
+        if ok:
+            args = [ast.unparse(a) for a in rets_g[0].args]
+            if fname == "filter_constant_value":
+                c = gp[1]
+                ok = args[:3] == [gp[0], f"{c}.value.native_value", f"{c}.data_type"]
+            else:
+                ok = args[:3] == gp[:3]
+        ctx.ob(R, m.rel, f"{g.short} :: delegates to the C literal filter with the constant's own value and type", ok, "", g.node.lineno)
+
+
 def run(ctx):
     ctx.explanation = (
         "C05 is decided for: the unit (bits/bytes) of every byte- or bit-named quantity in the type templates, inferred "
@@ -326,10 +442,11 @@ def run(ctx):
         "the buffer-too-small refusal on every serializer path.  Sufficiency of the bounds for all values and the "
         "rendering of constants of extreme magnitude are value-level and are not decided."
     )
-    ctx.declined = ["sufficiency of the advertised buffer size for all values; constant values 'within one ulp'; literal suffix correctness for extreme magnitudes"]
+    ctx.declined = ["sufficiency of the advertised buffer size for all values; constant values 'within one ulp' as a numerical claim (the literal's construction is decided)"]
     ts = j2front.TemplateSet(ctx.root)
     cd = Codec(ts)
     rule_units(ctx, cd)
     rule_source(ctx, cd)
     rule_defuse(ctx, cd)
     rule_refuse(ctx, cd)
+    rule_literal(ctx, pyfront.PyIndex(ctx.root))
